@@ -79,6 +79,22 @@ def _bisect_case(case):
         case = dict(case, table=None)
 
     which = case.get("fn", "_bisection_search")
+    if which == "AutoregressiveBisectionInverter":
+        # the PUBLIC inverter on a library bijection with small own-coordinate slopes (flat maps) and non-dyadic preimages
+        import flowjax.bijections as B
+        rng = np.random.default_rng(case["seed"])
+        dim = case["dim"]
+        scale = jnp.asarray(rng.choice(case["scales"], size=dim))
+        loc = jnp.asarray(rng.normal(size=dim))
+        bij = B.Affine(loc, scale)
+        xstar = jnp.asarray(rng.uniform(-3, 3, size=dim) + 0.1373)
+        ystar = bij.transform(xstar)
+        inv = bs.AutoregressiveBisectionInverter(tol=case["tol"], max_iter=case["max_iter"])
+        got = inv(bij, ystar)
+        err = float(jnp.max(jnp.abs(got - xstar)))
+        bound = case["tol"] + 64 * EPS * max(1.0, float(jnp.max(jnp.abs(xstar))))
+        return dict(ok=bool(err <= bound), observed=dict(found=np.asarray(got).tolist(), preimage=np.asarray(xstar).tolist(), scales=np.asarray(scale).tolist(), max_err=err, bound=bound),
+                    required="AutoregressiveBisectionInverter returns the preimage within the requested tolerance (in x), also for flat maps")
     if which == "_autoregressive_bisection_search":
         dim, tol, mi, seed = case["dim"], case["tol"], case["max_iter"], case["seed"]
         rng = np.random.default_rng(seed)
@@ -1941,6 +1957,46 @@ def rt_c04(tier="quick", first_only=False, count=None):
                     fails.append(dict(what=f"{name}: samples disagree with the density (KS statistic {D:.4f} on coordinate {ax}, n=20000, threshold 0.035)", case=case))
             if first_only and fails:
                 return fails
+    if count is not None:
+        count.append(n)
+    return fails
+
+
+def rt_simple_fwd(tier="quick", first_only=False, count=None, only=None):
+    """documented forward functions of Flip / Permute / AdditiveCondition against independent numpy references, ranks 0-3"""
+    import flowjax.bijections as B
+
+    fails, n = [], 0
+    rng = np.random.default_rng(33)
+    for shape in ((), (3,), (1, 4), (2, 3), (3, 3), (2, 3, 4)):
+        if only in (None, "Flip"):
+            n += 1
+            x = rng.normal(size=shape)
+            want = np.flip(x)
+            try:
+                b = B.Flip(shape)
+                got = [np.asarray(b.transform(jnp.asarray(x))), np.asarray(b.transform_and_log_det(jnp.asarray(x))[0])]
+                back = np.asarray(b.inverse(jnp.asarray(want)))
+                if not all(np.array_equal(g, want) for g in got) or not np.array_equal(back, x):
+                    fails.append(dict(what=f"Flip({shape}).transform(x) = {got[0].tolist()} but reversing every axis of x = {x.tolist()} gives {want.tolist()}", case=dict(cls="Flip", shape=list(shape))))
+            except Exception as ex:  # noqa: BLE001
+                fails.append(dict(what=f"Flip({shape}) raised {type(ex).__name__}: {str(ex)[:120]}", case=dict(cls="Flip", shape=list(shape))))
+        if only in (None, "Permute") and int(np.prod(shape, dtype=int)) >= 1 and shape != ():
+            n += 1
+            size = int(np.prod(shape, dtype=int))
+            perm = rng.permutation(size).reshape(shape)
+            x = rng.normal(size=shape)
+            want = x.ravel()[perm.ravel()].reshape(shape)
+            try:
+                b = B.Permute(jnp.asarray(perm))
+                got = np.asarray(b.transform(jnp.asarray(x)))
+                back = np.asarray(b.inverse(jnp.asarray(want)))
+                if not np.array_equal(got, want) or not np.array_equal(back, x):
+                    fails.append(dict(what=f"Permute(perm of shape {shape}).transform(x) = {got.tolist()}; flattened x gathered at perm gives {want.tolist()}", case=dict(cls="Permute", shape=list(shape))))
+            except Exception as ex:  # noqa: BLE001
+                fails.append(dict(what=f"Permute(shape {shape}) raised {type(ex).__name__}: {str(ex)[:120]}", case=dict(cls="Permute", shape=list(shape))))
+        if first_only and fails:
+            return fails
     if count is not None:
         count.append(n)
     return fails
